@@ -579,6 +579,13 @@ def render(rec):
     for d in NONFINAL_DIRS:
         nm.dir(d)
     fsops, evmap = [], {}
+    packed_unlinks = []
+    decoded = {}
+
+    def dec(c):
+        if c not in decoded:
+            decoded[c] = decode_strict(rec.blobs.data[c])
+        return decoded[c]
     vol = fsx.CrashSim([], 0)
     opi = 0
     extra_ino = [10 ** 6]
@@ -610,11 +617,23 @@ def render(rec):
             fsops.append(('Rename', nm.name(ev['src']), nm.name(ev['dst'])))
         elif t == 'unlink':
             rm = bool(o is not None and entitled(rec, o, ev, vol, k))
+            if o is not None and o.op['op'] == 'update_pack' and not ev.get('unseen') and ev['name'].split('/')[0] not in NONFINAL_DIRS:
+                # which byte strings are packs holding this key with the value of the file being unlinked?
+                fi = vol.vdir.get(ev['name'])
+                okf, fv = dec(vol.vdata[fi]) if fi is not None else (False, None)
+                key = bx(ev['name'].replace('/', ''))
+                cs = []
+                for c in sorted(rec.blobs.data):
+                    okp, pack = dec(c)
+                    if okf and okp and isinstance(pack, dict) and key in pack and same(pack[key], fv):
+                        cs.append(c)
+                packed_unlinks.append((len(fsops), nm.name(ev['name']), cs))
             fsops.append(('Unlink', nm.name(ev['name']), rm))
         # utime / truncate / ftruncate: no directory effect; a content change shows up as a write event
         vol.apply(ev)
     evmap[len(rec.events)] = len(fsops)
-    return {'fsops': fsops, 'evmap': evmap, 'names': nm, 'nf': nm.nonfinal(), 'cc': complete_cids(rec)}
+    return {'fsops': fsops, 'evmap': evmap, 'names': nm, 'nf': nm.nonfinal(), 'cc': complete_cids(rec),
+            'packed_unlinks': packed_unlinks}
 
 
 def fsop_lit(f):
@@ -663,6 +682,12 @@ Definition pl_case (c : plcase) : bool :=
     forallb (fun cp => match cp with (k, bs, ss) =>
       let s := run (fin_of nf) empty_fs (firstn k tr) in
       forallb (fun nb => same_set_b (pl_bindings s (fst nb)) (snd nb)) bs && forallb (synced_ok s) ss end) cps end.
+(* update_pack: at each of its unlinks the key is in the pack in every view (volatile and post-power-loss) *)
+Definition pucase := (list positive * list fsop * name * list (nat * name * list cid))%type.
+Definition packed_case (c : pucase) : bool :=
+  match c with (nf, tr, pk, us) =>
+    forallb (fun u => match u with (k, n, cs) =>
+      covered (fun c m => name_eqb m n && mem_pos cs c) (run (fin_of nf) empty_fs (firstn k tr)) pk n end) us end.
 (* redis *)
 Definition rcmd_eqb (a b : rcmd) : bool :=
   match a, b with
@@ -693,6 +718,12 @@ def tie_case(rec, rd):
         obs = ['(%s,%s)' % (nm.lit(n), 'Some %d' % o.listing[n] if n in o.listing else 'None') for n in allnames]
         cps.append('(%d%%nat,%s)' % (rd['evmap'][o.b], plist(obs)))
     return '(%s,%s,\n  %s,\n  %s)' % (plist(rd['nf']), plist(rd['cc']), plist(fsop_lit(f) for f in rd['fsops']), plist(cps))
+
+
+def packed_case(rec, rd):
+    nm = rd['names']
+    us = ['(%d%%nat,(%d,%d),%s)' % (k, n[0], n[1], plist(cs)) for (k, n, cs) in rd['packed_unlinks']]
+    return '(%s,\n  %s,\n  %s,\n  %s)' % (plist(rd['nf']), plist(fsop_lit(f) for f in rd['fsops']), nm.lit('packs/jugpack'), plist(us))
 
 
 def pl_tie_case(rec, rd, rng, ncheck):
@@ -1001,6 +1032,145 @@ def redis_part(ck, rng, n):
                       'redis': metas[i], 'coq_case': cases[i][:2000]})
 
 
+# ============================================================================ strace cross-check of the interposer
+STRACE_CALLS = ('open,openat,creat,rename,renameat,renameat2,unlink,unlinkat,fsync,fdatasync,mkdir,mkdirat,rmdir,'
+                'truncate,ftruncate,link,linkat,symlink,symlinkat')
+
+
+def child_main(path):
+    """run a scenario on the real file_store without any interposition (the process strace watches)"""
+    import json
+    job = json.load(open(path))
+    box = [file_store(job['jd'], compress_numpy=job['scenario']['compress'])]
+    for op in job['scenario']['ops']:
+        do_op(box, op, job['jd'])
+
+
+def canon_temps(seq):
+    names = {}
+    out = []
+    for ev in seq:
+        ev2 = []
+        for x in ev:
+            if isinstance(x, str) and x.startswith('tempfiles/'):
+                x = names.setdefault(x, 'tempfiles/T%d' % len(names))
+            ev2.append(x)
+        out.append(tuple(ev2))
+    return out
+
+
+def parse_strace(text, jd):
+    import re
+    seq = []
+    dirs = set([''])
+    pre = jd.rstrip('/')
+
+    def rel(p):
+        if p == pre:
+            return ''
+        if p.startswith(pre + '/'):
+            return p[len(pre) + 1:]
+        return None
+    for line in text.splitlines():
+        m = re.match(r'^\d+\s+(\w+)\((.*)\)\s+=\s+(-?\d+)', line)
+        if not m or int(m.group(3)) < 0:
+            continue
+        call, args = m.group(1), m.group(2)
+        paths = [rel(x) for x in re.findall(r'"([^"]*)"', args)]
+        fdpaths = [rel(x) for x in re.findall(r'\d+<([^>]*)>', args)]
+        if call in ('mkdir', 'mkdirat'):
+            if paths and paths[-1] is not None:
+                dirs.add(paths[-1])
+                seq.append(('mkdir', paths[-1]))
+        elif call in ('open', 'openat', 'creat'):
+            if not paths or paths[-1] is None:
+                continue
+            if 'O_CREAT' in args and 'O_EXCL' in args:
+                seq.append(('create_excl', paths[-1]))
+            elif call == 'creat' or any(f in args for f in ('O_WRONLY', 'O_RDWR', 'O_TRUNC', 'O_CREAT', 'O_APPEND')):
+                seq.append(('openw', paths[-1]))
+        elif call in ('fsync', 'fdatasync'):
+            if fdpaths and fdpaths[0] is not None:
+                seq.append(('fsyncdir' if fdpaths[0] in dirs else 'fsync', fdpaths[0]))
+        elif call in ('rename', 'renameat', 'renameat2'):
+            ps = [x for x in paths]
+            if len(ps) >= 2 and (ps[0] is not None or ps[1] is not None):
+                seq.append(('rename', ps[0], ps[1]))
+        elif call in ('unlink', 'unlinkat'):
+            if paths and paths[-1] is not None:
+                seq.append(('unlink', paths[-1]))
+        else:
+            ps = [x for x in paths + fdpaths if x is not None]
+            if ps:
+                seq.append(('other:' + call, ps[0]))
+    return seq
+
+
+def interposer_seq(rec):
+    vol = fsx.CrashSim([], 0)
+    seq = []
+    for ev in rec.events:
+        t = ev['op']
+        if t == 'mkdir':
+            seq.append(('mkdir', ev['dir']))
+        elif t == 'create':
+            seq.append(('create_excl' if ev.get('excl') and not ev.get('unseen') else 'openw', ev['name']))
+        elif t == 'openw':
+            seq.append(('openw', ev['name']))
+        elif t == 'fsync':
+            nm = [n for n, i in vol.vdir.items() if i == ev['ino']]
+            seq.append(('fsync', nm[0] if nm else '?'))
+        elif t == 'fsyncdir':
+            seq.append(('fsyncdir', ev['dir']))
+        elif t == 'rename':
+            seq.append(('rename', ev['src'], ev['dst']))
+        elif t == 'unlink':
+            seq.append(('unlink', ev['name']))
+        elif t not in ('write', 'close'):
+            seq.append(('other:' + t, ev.get('name')))
+        vol.apply(ev)
+    return seq
+
+
+def strace_crosscheck(ck, scn, top, tag):
+    """the primitives strace sees a separate, un-instrumented process issue on the jugdir = the interposer's trace"""
+    import json
+    import subprocess
+    root = os.path.join(top, 'st_' + tag)
+    os.makedirs(os.path.join(root, 'a'))
+    os.makedirs(os.path.join(root, 'b'))
+    rec = record(scn, os.path.join(root, 'a'), reader_stride=0)
+    mine = canon_temps(interposer_seq(rec))
+    jd = os.path.join(root, 'b', 'jd')
+    job = os.path.join(root, 'job.json')
+    with open(job, 'w') as f:
+        json.dump({'jd': jd, 'scenario': scenario_for_replay(scn)}, f)
+    out = os.path.join(root, 'strace.txt')
+    cmd = ['timeout', '300', 'strace', '-f', '-y', '-s', '300', '-o', out, '-e', 'trace=' + STRACE_CALLS,
+           '/venv/bin/python', '-m', 'harness.c05', job]
+    p = subprocess.run(cmd, stdout=subprocess.PIPE, stderr=subprocess.STDOUT, text=True, cwd=core.VERIF)
+    if p.returncode != 0 or not os.path.exists(out):
+        ck.count('strace cross-check: could not run')
+        ck.notes.append('strace cross-check did not run: %s' % p.stdout[-300:])
+        shutil.rmtree(root, ignore_errors=True)
+        return
+    theirs = canon_temps(parse_strace(open(out).read(), jd))
+    shutil.rmtree(root, ignore_errors=True)
+    ck.count('strace cross-check: scenarios')
+    ck.count('strace cross-check: primitives compared', len(theirs))
+    ok = mine == theirs
+    ck.obligations.append({'name': 'interposer trace = strace syscall trace (%s, %d primitives)' % (tag, len(theirs)),
+                           'kind': 'correspondence', 'ok': ok, 'msg': ''})
+    if not ok:
+        k = 0
+        while k < min(len(mine), len(theirs)) and mine[k] == theirs[k]:
+            k += 1
+        ck.violation({'kind': 'correspondence', 'what': 'interposer and strace disagree on the primitive trace',
+                      'scenario': scenario_for_replay(scn), 'first_difference': k,
+                      'interposer': [list(x) for x in mine[max(0, k - 3):k + 4]], 'strace': [list(x) for x in theirs[max(0, k - 3):k + 4]]},
+                     found_input=False)
+
+
 # ============================================================================ the check
 def scenario_for_replay(scn):
     return {'name': scn.get('name'), 'compress': scn['compress'], 'ops': scn['ops']}
@@ -1023,11 +1193,11 @@ def run(ck):
     ]
     rng = ck.rng
     scns = fixed_scenarios(thorough)
-    for _ in range(ck.n(18, 150)):
+    for _ in range(ck.n(18, 240)):
         scns.append(gen_scenario(rng, rng.randint(8, 18), big=thorough and rng.random() < 0.1))
     cap = ck.n(40, 512)
     max_points = ck.n(14, 400)
-    tcases, tmetas, plcases, plmetas = [], [], [], []
+    tcases, tmetas, plcases, pucases, pumetas = [], [], [], [], []
     found_crash = set()          # scenario indices with a concrete failing crash image / reader point
     with jugrun.scratch_dir('jugv_c05_') as top:
         for si, scn in enumerate(scns):
@@ -1073,6 +1243,10 @@ def run(ck):
                         ck.count('dump:key was in the pack (pack rewritten first)')
             tcases.append(tie_case(rec, rd))
             tmetas.append((si, rec, rd))
+            if rd['packed_unlinks']:
+                pucases.append(packed_case(rec, rd))
+                pumetas.append((si, rec, rd))
+                ck.count('update_pack unlinks checked for pack coverage in every view', len(rd['packed_unlinks']))
             plc, ncp, nex = pl_tie_case(rec, rd, rng, ck.n(8, 30))
             plcases.append(plc)
             ck.count('crash-simulator tie: checkpoints', ncp)
@@ -1113,12 +1287,28 @@ def run(ck):
                    'trace_of_operation': short_trace(rec.events, rec.ops[opi].a, rec.ops[opi].b) if opi is not None else None,
                    'interning': {'dirs': rd['names'].dirs, 'nonfinal': rd['nf'], 'complete': rd['cc']}}
             ck.violation(obj, found_input=(si in found_crash))
+    fails = ck.cases('update_pack_coverage', IMPORTS, 'pucase', 'packed_case', pucases, shard=4, preamble=PREAMBLE)
+    for i in (fails or []):
+        si, rec, rd = pumetas[i]
+        ck.violation({'kind': 'correspondence', 'what': 'update_pack unlinks a result that is not in the pack in every view (volatile / after power loss)',
+                      'scenario': scenario_for_replay(rec.scn),
+                      'unlinks': [[k, fsop_lit(rd['fsops'][k]), cs] for (k, n, cs) in rd['packed_unlinks']][:10]},
+                     found_input=(si in found_crash))
     fails = ck.cases('crashsim_vs_model', IMPORTS, 'plcase', 'pl_case', plcases, shard=4, preamble=PREAMBLE)
     for i in (fails or []):
         si, rec, rd = tmetas[i]
         ck.violation({'kind': 'correspondence', 'what': 'crash simulator and Model.Fs power-loss relation disagree',
                       'scenario': scenario_for_replay(rec.scn)}, found_input=False)
     redis_part(ck, rng, ck.n(40, 400))
+    if shutil.which('strace'):
+        with jugrun.scratch_dir('jugv_c05s_') as top:
+            fx = fixed_scenarios(False)
+            todo = [('pack_centric', fx[3])] if not thorough else (
+                [(s['name'].replace(' ', '_'), s) for s in fx] + [('random%d' % j, gen_scenario(rng, 14)) for j in range(6)])
+            for tag, scn in todo:
+                strace_crosscheck(ck, scn, top, tag)
+    else:
+        ck.count('strace cross-check: strace not available')
 
 
 def scn_compress_at(scn, index):
@@ -1217,3 +1407,8 @@ def replay_redis(obj):
         return 0 if good else 1
     finally:
         fakeredis.uninstall()
+
+
+if __name__ == '__main__':
+    import sys
+    child_main(sys.argv[1])
